@@ -35,7 +35,12 @@ func PackSize(format string) (uint, error) {
 			_ = s.align(0) && s.inc(1)
 		case 'X':
 			s.alignOnly = true
-		case 's', 'z':
+		case 's':
+			// After 'X' this is only an alignment, which has a fixed size
+			if s.smallOptSize(8) && s.align(s.optSize) {
+				s.err = errVariableLength
+			}
+		case 'z':
 			s.err = errVariableLength
 		default:
 			s.err = errBadFormatString(c)
